@@ -4,8 +4,9 @@ import Logrange.Generated.C07
 # C07 — the tag index file (`pkg/tindex/inmem.go`: `saveStateUnsafe`, `loadState`, `checkConsistency`)
 
 `saveStateUnsafe` is interpreted from the **generated** call order (`Generated.C07.saveStateCalls`, read from
-the source on every run): today `[stat; rename dat→bak; WriteFile dat]`. A repair (write a temp file, rename it
-over) or a regression changes the generated list and with it the step list every theorem below talks about.
+the source on every run): today `[WriteFile tmp; stat; remove bak; link dat→bak; rename tmp→dat]` (before the repair
+of finding F05: `[stat; rename dat→bak; WriteFile dat]`). A regression changes the generated list and with it the step
+list every theorem below talks about.
 -/
 namespace Logrange.Persist
 open Logrange.Generated.C07
@@ -15,12 +16,16 @@ abbrev Src := Bytes
 /-- `tmap`: tag line → journal id (the JSON object written to `tindex.dat`) -/
 abbrev TMap := List (TagLine × Src)
 
+/-- the steps of one call of `saveStateUnsafe`. `removeBak`, `linkDatToBak` (and the old `renameDatToBak`) sit in the
+`if the file exists` branch of the `Stat`. -/
 def tindexCallSteps (datExists : Bool) (data : Bytes) : FsCall → List Step
   | .statDat => []
   | .renameDatToBak => if datExists then [.rename .tindexDat .tindexBak] else []
   | .writeDat => writeFile .tindexDat data
-  | .writeOther => writeFile .tindexTmp data
-  | .renameOtherToDat => [.rename .tindexTmp .tindexDat]
+  | .writeTmp => writeFile .tindexTmp data
+  | .removeBak => if datExists then [.remove .tindexBak] else []
+  | .linkDatToBak => if datExists then [.link .tindexDat .tindexBak] else []
+  | .renameTmpToDat => [.rename .tindexTmp .tindexDat]
   | .other => []
 
 def tindexSaveStepsOf (calls : List FsCall) (datExists : Bool) (data : Bytes) : List Step :=
